@@ -23,10 +23,10 @@ pub struct Draws { pub rearmed: Ghost<bool> }
              loop_tables={0: [
                  (r"^let \[player_one, player_two\] = &mut player_infosets;$", ("abstract", "")),
                  (r"^thread_threshold\( start, &chance_infosets, \[player_one, player_two\], target, &mut queue, &mut work, \);$",
-                  ("abstract", "__abs_thread_threshold(&mut queue, &mut work); // @ob C06.V.workspace_fresh.frontier")),
+                  ("abstract", "__abs_thread_threshold(&mut queue, &mut work); // @ob C06.V.solve_generic_multi.workspace_fresh")),
                  (r"^let \[player_one, player_two\] = &player_infosets;$", ("abstract", "")),
                  (r"^payoffs\.par_extend\(queue\.par_drain\(\.\.\)\.map\(\|\(node, p_chance, p_player\)\| \{ let payoff = recurse_multi\( node, &chance_infosets, \[player_one, player_two\], p_chance, p_player, &\(\), \); \(ByAddress\(node\), payoff\) \}\)\);$",
-                  ("abstract", "__abs_par_drain_into(&mut payoffs, &mut queue); // @ob C06.V.workspace_fresh.payoff_cache")),
+                  ("abstract", "__abs_par_drain_into(&mut payoffs, &mut queue); // @ob C06.V.solve_generic_multi.workspace_fresh")),
                  (r"^recurse_multi\( start, &chance_infosets, \[player_one, player_two\], 1\.0, \[1\.0; 2\], &payoffs, \);$", ("abstract", "")),
                  (r"^chance_infosets\.iter_mut\(\)\.for_each\(ChanceRecurse::advance\);$", ("abstract", "__abs_rearm_chance_draws(&mut __draws);"), "optional"),
                  (r"^for \(reg, infos\) in regs\.iter_mut\(\)\.zip\(player_infosets\.iter_mut\(\)\) \{ \*reg = infos\.iter_mut\(\)\.map\(\|info\| info\.advance\(it, params\)\)\.sum\(\); \}$", ("abstract", "")),
@@ -36,7 +36,9 @@ pub struct Draws { pub rearmed: Ghost<bool> }
                  (r"^if [^{]* \{ (queue|work|payoffs)\.clear\(\); \}$", ("abstract", "if __abs_stop() { \\1.clear(); }"), "optional"),
              ]},
              loops={0: dict(kind="for", head="""invariant
-    queue@.len() == 0, work@.len() == 0, map_len(&payoffs) == 0, // @ob C06.V.solve_generic_multi.workspace_fresh""",
+    queue@.len() == 0, // @cand queue_empty_at_head
+    work@.len() == 0, // @cand work_empty_at_head
+    map_len(&payoffs) == 0, // @cand payoffs_empty_at_head""",
                             body_start="let mut __draws = __draws_of_this_pass();",
                             body_end="proof { assert(__draws.rearmed@); } // @ob C10.V.solve_generic_multi.fresh_draw_next_pass")},
         ),
